@@ -622,7 +622,7 @@ def s_max(a, b):
             c = a >= b
             return a if c else b
         return SV(z3.simplify(z3.If(lift(a) >= lift(b), lift(a), lift(b))),
-                  is_int=getattr(a, "is_int", isinstance(a, int)) and getattr(b, "is_int", isinstance(b, int)))
+                  is_int=getattr(a, "is_int", isinstance(a, (int, _np.integer))) and getattr(b, "is_int", isinstance(b, (int, _np.integer))))
     with _np.errstate(all="ignore"):
         return _np.maximum(a, b)
 
@@ -636,7 +636,7 @@ def s_min(a, b):
             c = a <= b
             return a if c else b
         return SV(z3.simplify(z3.If(lift(a) <= lift(b), lift(a), lift(b))),
-                  is_int=getattr(a, "is_int", isinstance(a, int)) and getattr(b, "is_int", isinstance(b, int)))
+                  is_int=getattr(a, "is_int", isinstance(a, (int, _np.integer))) and getattr(b, "is_int", isinstance(b, (int, _np.integer))))
     with _np.errstate(all="ignore"):
         return _np.minimum(a, b)
 
